@@ -32,57 +32,58 @@ Definition from_slice (a : list N) : word := map clampc a.
 Definition from_vec (a : list N) : word :=
   if forallb (fun x => x <=? MAXC) a then a else from_slice a.
 
-(* ------------------------------------------------------------------ the parsing automaton *)
+(* ------------------------------------------------------------------ the parsing automaton
+   (Rust names with the prefix pa_, so that they do not clash with other models when extracted) *)
 
 Inductive lstate := LInit | LAfterSlash | LAfterSlashU | LAfterSlashUHex | LAfterSlashUBrace.
 
 (* struct ParsingAutomaton { state, string_so_far, pending: [u32; 9], pending_idx, escape_code } *)
 Record pa := mkpa {
-  pstate : lstate;
-  so_far : list N;
-  pend : list N;        (* the 9-slot array; slots at and beyond pending_idx hold stale values *)
-  pidx : nat;
-  ecode : N }.
+  pa_state : lstate;
+  pa_so_far : list N;
+  pa_buf : list N;        (* the 9-slot array; slots at and beyond pending_idx hold stale values *)
+  pa_idx : nat;
+  pa_code : N }.
 
-Definition new_automaton : pa := mkpa LInit [] (repeat 0 9) 0 0.
+Definition new_parsing_automaton : pa := mkpa LInit [] (repeat 0 9) 0 0.
 
 (* array store a[i] = x; None = index out of bounds *)
-Fixpoint upd (l : list N) (i : nat) (x : N) : option (list N) :=
+Fixpoint lit_upd (l : list N) (i : nat) (x : N) : option (list N) :=
   match l, i with
   | [], _ => None
   | _ :: r, O => Some (x :: r)
-  | y :: r, S k => do r' <- upd r k x; Some (y :: r')
+  | y :: r, S k => do r' <- lit_upd r k x; Some (y :: r')
   end.
 
-Definition set_state (p : pa) (s : lstate) : pa :=
-  mkpa s (so_far p) (pend p) (pidx p) (ecode p).
+Definition pa_set_state (p : pa) (s : lstate) : pa :=
+  mkpa s (pa_so_far p) (pa_buf p) (pa_idx p) (pa_code p).
 
 (* fn push: add (the clamped, D7) char x to the string so far *)
-Definition push (p : pa) (x : N) : pa :=
-  mkpa (pstate p) (so_far p ++ [clampc x]) (pend p) (pidx p) (ecode p).
+Definition pa_push (p : pa) (x : N) : pa :=
+  mkpa (pa_state p) (pa_so_far p ++ [clampc x]) (pa_buf p) (pa_idx p) (pa_code p).
 
 (* fn pending: assert!(i < 9); self.pending[i] = x; self.pending_idx += 1 *)
-Definition pending (p : pa) (x : N) : option pa :=
-  if (pidx p <? 9)%nat then
-    do a <- upd (pend p) (pidx p) x;
-    Some (mkpa (pstate p) (so_far p) a (S (pidx p)) (ecode p))
+Definition pa_pending (p : pa) (x : N) : option pa :=
+  if (pa_idx p <? 9)%nat then
+    do a <- lit_upd (pa_buf p) (pa_idx p) x;
+    Some (mkpa (pa_state p) (pa_so_far p) a (S (pa_idx p)) (pa_code p))
   else None.
 
 (* fn consume: character x in the Init state *)
-Definition consume (p : pa) (x : N) : option pa :=
-  if x =? 92 then (do q <- pending p x; Some (set_state q LAfterSlash))
-  else Some (push p x).
+Definition pa_consume (p : pa) (x : N) : option pa :=
+  if x =? 92 then (do q <- pa_pending p x; Some (pa_set_state q LAfterSlash))
+  else Some (pa_push p x).
 
 (* fn flush_pending: copy pending[0..pending_idx] to the string, reset.  The slice panics when
    pending_idx exceeds the array length. *)
-Definition flush_pending (p : pa) : option pa :=
-  if (pidx p <=? length (pend p))%nat then
-    Some (mkpa LInit (so_far p ++ firstn (pidx p) (pend p)) (pend p) 0 0)
+Definition pa_flush_pending (p : pa) : option pa :=
+  if (pa_idx p <=? length (pa_buf p))%nat then
+    Some (mkpa LInit (pa_so_far p ++ firstn (pa_idx p) (pa_buf p)) (pa_buf p) 0 0)
   else None.
 
 (* fn close_escape_seq *)
-Definition close_escape_seq (p : pa) : pa :=
-  mkpa LInit (so_far p ++ [ecode p]) (pend p) 0 0.
+Definition pa_close_escape_seq (p : pa) : pa :=
+  mkpa LInit (pa_so_far p ++ [pa_code p]) (pa_buf p) 0 0.
 
 (* char::to_digit(16) / char::is_ascii_hexdigit *)
 Definition hexval (x : N) : option N :=
@@ -93,44 +94,44 @@ Definition hexval (x : N) : option N :=
 Definition is_hex (x : N) : bool := match hexval x with Some _ => true | None => false end.
 
 (* fn add_hex: escape_code = escape_code << 4 | hex; pending(x).   (to_digit(16).unwrap()) *)
-Definition add_hex (p : pa) (x : N) : option pa :=
+Definition pa_add_hex (p : pa) (x : N) : option pa :=
   do h <- hexval x;
-  pending (mkpa (pstate p) (so_far p) (pend p) (pidx p) (N.lor (N.shiftl (ecode p) 4) h)) x.
+  pa_pending (mkpa (pa_state p) (pa_so_far p) (pa_buf p) (pa_idx p) (N.lor (N.shiftl (pa_code p) 4) h)) x.
 
 (* fn accept *)
-Definition accept (p : pa) (x : N) : option pa :=
-  match pstate p with
-  | LInit => consume p x
+Definition pa_accept (p : pa) (x : N) : option pa :=
+  match pa_state p with
+  | LInit => pa_consume p x
   | LAfterSlash =>
-      if x =? 117 then (do q <- pending p x; Some (set_state q LAfterSlashU))
-      else (do q <- flush_pending p; consume q x)
+      if x =? 117 then (do q <- pa_pending p x; Some (pa_set_state q LAfterSlashU))
+      else (do q <- pa_flush_pending p; pa_consume q x)
   | LAfterSlashU =>
-      if x =? 123 then (do q <- pending p x; Some (set_state q LAfterSlashUBrace))
-      else if is_hex x then (do q <- add_hex p x; Some (set_state q LAfterSlashUHex))
-      else (do q <- flush_pending p; consume q x)
+      if x =? 123 then (do q <- pa_pending p x; Some (pa_set_state q LAfterSlashUBrace))
+      else if is_hex x then (do q <- pa_add_hex p x; Some (pa_set_state q LAfterSlashUHex))
+      else (do q <- pa_flush_pending p; pa_consume q x)
   | LAfterSlashUBrace =>
-      if (x =? 125) && (3 <? pidx p)%nat && (ecode p <=? MAXC) then Some (close_escape_seq p)
-      else if is_hex x && (pidx p <? 8)%nat then add_hex p x
-      else (do q <- flush_pending p; consume q x)
+      if (x =? 125) && (3 <? pa_idx p)%nat && (pa_code p <=? MAXC) then Some (pa_close_escape_seq p)
+      else if is_hex x && (pa_idx p <? 8)%nat then pa_add_hex p x
+      else (do q <- pa_flush_pending p; pa_consume q x)
   | LAfterSlashUHex =>
       if is_hex x then
-        (do q <- add_hex p x;
-         if (pidx q =? 6)%nat then Some (close_escape_seq q) else Some q)
-      else (do q <- flush_pending p; consume q x)
+        (do q <- pa_add_hex p x;
+         if (pa_idx q =? 6)%nat then Some (pa_close_escape_seq q) else Some q)
+      else (do q <- pa_flush_pending p; pa_consume q x)
   end.
 
 (* for x in a.chars() { parser.accept(x) } *)
-Fixpoint run (p : pa) (t : list N) : option pa :=
+Fixpoint pa_run (p : pa) (t : list N) : option pa :=
   match t with
   | [] => Some p
-  | x :: r => do q <- accept p x; run q r
+  | x :: r => do q <- pa_accept p x; pa_run q r
   end.
 
 (* pub fn parse_smt_literal *)
 Definition parse_smt_literal (t : list N) : option word :=
-  do p <- run new_automaton t;
-  do q <- flush_pending p;
-  Some (so_far q).
+  do p <- pa_run new_parsing_automaton t;
+  do q <- pa_flush_pending p;
+  Some (pa_so_far q).
 
 (* ------------------------------------------------------------------ printers *)
 
@@ -191,28 +192,28 @@ Fixpoint fmt_loop (s : word) : list N :=
   end.
 
 (* impl fmt::Display for SmtString *)
-Definition display (s : word) : list N := [34] ++ fmt_loop s ++ [34].
+Definition smt_display (s : word) : list N := [34] ++ fmt_loop s ++ [34].
 
 (* ------------------------------------------------------------------ reading a printed literal *)
 
 (* strip the outer quotes *)
-Definition body (t : list N) : list N :=
+Definition lit_body (t : list N) : list N :=
   match t with
   | [] => []
   | _ :: r => removelast r
   end.
 
 (* undo the doubling of the double quote, left to right *)
-Fixpoint undouble (t : list N) : list N :=
+Fixpoint lit_undouble (t : list N) : list N :=
   match t with
   | [] => []
   | x :: r =>
       if x =? 34 then
         match r with
-        | y :: r' => if y =? 34 then 34 :: undouble r' else x :: undouble r
+        | y :: r' => if y =? 34 then 34 :: lit_undouble r' else x :: lit_undouble r
         | [] => [x]
         end
-      else x :: undouble r
+      else x :: lit_undouble r
   end.
 
 (* ------------------------------------------------------------------ pinned (pre-repair) code *)
@@ -220,11 +221,11 @@ Fixpoint undouble (t : list N) : list N :=
 (* D7: From<&str>, From<char> and push copied the code point *)
 Definition from_str_pinned (t : list N) : word := t.
 Definition from_char_pinned (x : N) : word := [x].
-Definition push_pinned (p : pa) (x : N) : pa :=
-  mkpa (pstate p) (so_far p ++ [x]) (pend p) (pidx p) (ecode p).
-Definition consume_pinned (p : pa) (x : N) : option pa :=
-  if x =? 92 then (do q <- pending p x; Some (set_state q LAfterSlash))
-  else Some (push_pinned p x).
+Definition pa_push_pinned (p : pa) (x : N) : pa :=
+  mkpa (pa_state p) (pa_so_far p ++ [x]) (pa_buf p) (pa_idx p) (pa_code p).
+Definition pa_consume_pinned (p : pa) (x : N) : option pa :=
+  if x =? 92 then (do q <- pa_pending p x; Some (pa_set_state q LAfterSlash))
+  else Some (pa_push_pinned p x).
 
 (* D4: the printers had no case for the backslash *)
 Definition fmt_char_pinned (x : N) : list N :=
@@ -233,4 +234,4 @@ Definition fmt_char_pinned (x : N) : list N :=
   else if (x <? 32) || (x =? 127) then [92; 117; 123] ++ fmt_02x x ++ [125]
   else if x <? 65536 then [92; 117] ++ fmt_04x x
   else [92; 117; 123] ++ fmt_x x ++ [125].
-Definition display_pinned (s : word) : list N := [34] ++ flat_map fmt_char_pinned s ++ [34].
+Definition smt_display_pinned (s : word) : list N := [34] ++ flat_map fmt_char_pinned s ++ [34].
